@@ -46,6 +46,18 @@ def interior_mask(P, margin=1e-9):
         return rh.mink_sq(P) <= -margin * np.sum(P * P, axis=-1)
 
 
+def omr_far(omr_p, t):
+    """1 - (Klein radius) of the farthest point at hyperbolic distance |t| from
+    a point with 1 - (Klein radius) = omr_p.  This is the conditioning of
+    'move t along a geodesic from p' in float64: the pair (point, unit tangent)
+    is only Minkowski-orthogonal up to eps/omr_p, which displaces the result
+    by (eps/omr_p) sinh t cosh t along the geodesic whatever its direction."""
+    omr_p = np.clip(np.asarray(omr_p, dtype=float), 1e-300, 1.0)
+    e2rho = (2.0 - omr_p) / omr_p
+    with np.errstate(all="ignore"):
+        return 2.0 / (1.0 + np.exp(2.0 * np.abs(np.asarray(t, dtype=float))) * e2rho)
+
+
 # -- reference distance -------------------------------------------------------------
 
 def dist_klein_ref(kx, ky):
